@@ -115,3 +115,11 @@ Definition with_heap (g : gstate) (i : nat) (h : hstore) : gstate :=
 
 Definition execute (beh : behaviour) (i k : nat) (h0 : hstore) (g : gstate) : list Z :=
   proj i (snd (solo (cstep beh) i k (with_heap g i h0))).
+
+(* two behaviours used by the non-vacuity examples of Properties/C20.v: one that
+   only touches its own heap (and reads a shared location), one that stores to a
+   shared location *)
+Definition beh_counter : behaviour :=
+  fun i s h => ([(WOwn 0, h 0 + 1)], h 0 + s "otto.scriptVersion"%string).
+Definition beh_bad : behaviour :=
+  fun i s h => ([(WShared "otto.scriptVersion"%string, 1)], 0).
